@@ -281,7 +281,10 @@ def s2c_call(ctx, log, cases):
     for n, c in enumerate(cases):
         par, base, want = objmap(c['par']), c['base'], c['out']
         cls = ('Dict', 'SubD')[n % 2]
-        for order in itertools.permutations(sorted(par)):          # EVERY keyword order
+        orders = list(itertools.permutations(sorted(par)))          # EVERY keyword order ...
+        if ctx.quick and len(par) == 4 and want[0] == 'exc':         # ... (quick tier: 6 of the 24 for the cyclic graphs on 4 keys)
+            orders = [orders[0], orders[-1]] + ctx.rng.sample(orders[1:-1], 4)
+        for order in orders:
             o = obs_call(cls, base, {}, par, order)
             if want[0] == 'exc':
                 ok = o['out'] == {'kind': 'exc', 'cls': want[1]}
@@ -417,11 +420,17 @@ def c2s_call(ctx, log, ngraphs, norders):
             ctx.sample({'c2s_call': o})
 
 
+def gen(ctx, module, cfg):
+    """TLC's workers print the cases in an order that varies from run to run: sort them, so that everything the
+    driver derives from the position of a case (class rotation, seeded choices, samples) is reproducible"""
+    return sorted(ctx.generate(module, cfg), key=lambda c: json.dumps(c, sort_keys=True))
+
+
 def run(ctx):
     ctx.rule = ('S2C: every (raw list, operand) of the TLC universe through ulist(), +, |, -, & (ulist and a subclass); every '
                 '(mapping, argument) through -, &, [list], [k1, k2], +, |, relabel (3 spellings), attribute access on dictattr, Dict and a '
                 'subclass of each; every dependency graph without self-loops on <= 4 derived keys (incl. redefinition of a base key) '
-                'through Dict(**base)(**definitions) in EVERY keyword order, definitions synthesised with exec so that each value '
+                'through Dict(**base)(**definitions) in EVERY keyword order (quick tier: 6 of the 24 orders for cyclic graphs on 4 keys), definitions synthesised with exec so that each value '
                 'is the tuple (key, arguments...).  Operands are encoded before and after every call.  C2S: random lists over 16 '
                 'elements (1 == True == 1.0, tuples), random mappings over 10 keys, 5-6 derived keys with random (a)cyclic graphs, '
                 'shadowing and plain keywords in seeded random orders, judged by Trace_Algebra.  Non-trivial = intersection neither '
@@ -429,10 +438,10 @@ def run(ctx):
                 'acyclic graph with >= 1 dependency among definitions; distinct by abstract input.')
     ctx.mc('MC_Algebra', 'MC_Algebra_quick.cfg' if ctx.quick else 'MC_Algebra_thorough.cfg')
     log = Log(ctx, 1500 if ctx.quick else 20000)
-    cases = ctx.generate('MC_Algebra', 'MC_Algebra_gen1.cfg' if ctx.quick else 'MC_Algebra_gen1t.cfg')
-    s2c_ulist(ctx, log, cases)
-    s2c_map(ctx, log, ctx.generate('MC_Algebra', 'MC_Algebra_gen2.cfg'))
-    s2c_call(ctx, log, ctx.generate('MC_Algebra', 'MC_Algebra_gen3.cfg'))
+    cases = gen(ctx, 'MC_Algebra', 'MC_Algebra_gen.cfg' if ctx.quick else 'MC_Algebra_gent.cfg')   # all three families in one TLC run
+    s2c_ulist(ctx, log, [c for c in cases if c['op'] == 'ulist'])
+    s2c_map(ctx, log, [c for c in cases if c['op'] == 'map'])
+    s2c_call(ctx, log, [c for c in cases if c['op'] == 'call'])
     c2s_ulist(ctx, log, 600 if ctx.quick else 8000)
     c2s_map(ctx, log, 600 if ctx.quick else 8000)
     c2s_call(ctx, log, 40 if ctx.quick else 600, 60)
